@@ -291,6 +291,15 @@ def extract(repo):
                 ok = False
                 notes.append(f"task seq mutex: {why_s}")
                 span = "SpanCounter"
+        elif name == "session" and psrc is not None:
+            # one producer: the session's seq is a `&mut u64` threaded through sequential code; any construct that could
+            # run two emitters of one session concurrently makes the claim unreadable (fails closed)
+            conc = re.findall(r"tokio::spawn\(|\bjoin!\s*\(|\bselect!\s*[\({]|FuturesUnordered|join_all\(|JoinSet", psrc)
+            if conc:
+                ok = False
+                notes.append(f"session: concurrency construct(s) {sorted(set(conc))} in session.rs: single-producer claim not readable")
+                span = "SpanCounter"
+            span_note = "one sequential producer (no spawn/join/select in session.rs; seq is a &mut u64 in run_session)"
         elif name == "thread":
             span_note = "next_seq mutex held from choose to publish in every append (C01's obligation)"
         if prod is not None:
